@@ -8,6 +8,7 @@ from .build import AnalysisBroken
 
 
 DEFAULT_PROG = [None]     # set by the check driver: the Program of the current run
+NONE = ('none',)          # value of an empty std::optional
 
 
 class Evaluator:
@@ -32,7 +33,7 @@ class Evaluator:
         fn = self.fn
         if self.prog is None or len(self._stack) >= 3:
             return None
-        if (n.get('t') or '') != 'bool':
+        if (n.get('t') or '').replace('const ', '') not in ('bool', 'std::optional<bool>'):
             return None
         args = list(n.get('args', []))
         if n.get('op') == '()' and n.get('opargs'):
@@ -86,7 +87,7 @@ class Evaluator:
             g.param_alias = saved
         if len(vals) == 1:
             v = vals.pop()
-            return v if isinstance(v, bool) else None
+            return v if isinstance(v, bool) or v == NONE else None
         return None
 
     def _num(self, v):
@@ -119,6 +120,19 @@ class Evaluator:
             return ('enum', n['name'])
         if k in ('cast', 'icast'):
             return self.ev(n['e'], state, depth + 1)
+        if k == 'var' and n.get('name') in ('nullopt', 'std::nullopt') and n.get('vk') == 'global':
+            return NONE
+        if k == 'construct' and (n.get('cls') or '').startswith('std::optional'):
+            real = [a for a in n.get('args', []) if fn.nodes[a]['k'] != 'defarg']
+            if not real:
+                return NONE
+            return self.ev(real[0], state, depth + 1)
+        if k == 'call' and fn.cname(n).startswith('std::optional') and fn.cname(n).endswith(('::has_value', '::operator bool')) and n.get('obj') is not None:
+            v = self.ev(n['obj'], state, depth + 1)
+            return None if v is None else (v != NONE)
+        if k == 'call' and fn.cname(n).startswith('std::optional') and fn.cname(n).endswith(('::value', '::operator*')) and (n.get('obj') is not None or n.get('opargs')):
+            v = self.ev(n['obj'] if n.get('obj') is not None else n['opargs'][0], state, depth + 1)
+            return None if v is None or v == NONE else v
         if k == 'un' and n['op'] == '!':
             v = self.ev(n['e'], state, depth + 1)
             return None if v is None else (not v)
